@@ -43,6 +43,16 @@ pub fn run(ctx: &Ctx) -> PropReport {
     let mut ps = p.clone();
     ps.outages = 0;
     rep.part(|| run_random(ctx, "starved", "same oracle; one directed link is down for 0.3-6 s with timeouts raised to 60 s so that sessions sit at the prediction limit (stalls) and recover", || starved(&ps), ctx.tier.pick(2000, 8000), eval));
+    let seed = ctx.seed;
+    rep.part(|| run_enum(ctx, "drops",
+        "C07's two-peer drop scenarios (moment of death x lost tail, explicit disconnect_player; rollback, sparse and lockstep, spectators): the resimulation from the cut-off and everything after it must obey the same request contract",
+        ctx.tier.pick(3000u64, 20000u64), move |i| {
+            if i % 3 == 0 {
+                super::c07::api_case(i / 3, seed)
+            } else {
+                super::c07::death_case((i * 7919) % (super::c07::NBASE * 120), seed, 1, &[0, 2])
+            }
+        }, eval, false));
     rep.part(|| super::c13::c02_part(ctx));
     rep.floors.push(("p2p".into(), 0.3));
     rep.assumptions = vec!["the harness game executes requests strictly in order and is itself deterministic".into()];
